@@ -107,6 +107,34 @@ T = {
     "C14-m3-diff-ulp-flush-only-for-opposite-signs": ("diff_ulp flush remapping guarded by `sx != sy`", "flush_subnormals=True and two same-sign operands one of which is subnormal", True, ""),
     "C14-m4-ulp-memoised-across-dtypes": ("utils.ulp memoised in a module-level dict keyed by the value", "a value representable in two float types asked first in one type and then in the other", True, ""),
     "C14-m5-diff-log2ulp-via-frexp": ("diff_log2ulp computes the bit length through math.frexp", "float64 distances just below a power of two >= 2^54", False, "C14 also checks the documented identity diff_log2ulp = diff_ulp.bit_length() on every judged pair and flush mode"),
+    # ---- fourth wave
+    "C03-m6-real-asinh-safe-min-limit-signed-x": ("real_asinh: `ax <= safe_min_limit` -> `x <= safe_min_limit`", "the documented Context parameter safe_min_limit and L < |x| < sqrt(largest)", False, "C03 repeats every identity under the documented Context parameter variants (safe_min_limit, safe_max_limit_coefficient, use_fast2sum)"),
+    "C03-m7-log1p-case-c-y-times-ay": ("complex_log1p Case C: y*y -> y*ay", "|x+1|+|y| < 0.2 with y < 0", True, ""),
+    "C03-m8-acos-atan2-reflection": ("complex_acos computes its real part by reflecting atan2 for negative real parts (acosh keeps the original expression)", "negative real part, compared with acosh", True, ""),
+    "C04-m6-nonnegative-subtract-nonpositive-minus-nonnegative": ("Expr._is_nonnegative subtract branch: (nonpositive - nonnegative) inferred strictly negative", "both operands exactly zero", True, ""),
+    "C04-m7-compare-nonconstant-uses-swapped-relop-column": ("Rewriter._compare final branch uses the swapped relop column", "an ordering comparison between two non-constant operands of opposite sign classes", True, ""),
+    "C04-m8-select-gt-normalised-to-lt": ("Rewriter.select: (a > b) ? x : y normalised to select(a < b, y, x)", "a == b with arms that differ there", True, ""),
+    "C05-m7-numpy-max-min-as-ufuncs": ("numpy maximum/minimum emitted as numpy.maximum/minimum", "two zeros of opposite sign (or NaN in the second operand)", True, ""),
+    "C05-m8-select-typed-like-true-branch": ("Expr.get_type(select) takes the type of the true branch only", "branches of different types, the wider one third (seen by C08; C05 executes C++ only for equal argument types)", True, ""),
+    "C05-m9-python-logical-not-unparenthesised": ("python logical_not template `not {0}`", "logical_not over an inlined logical_and / logical_or / boolean select", False, "C05 conditions that nest logical_not over and/or/select"),
+    "C06-m6-stablehlo-constant-repr": ("stablehlo prints generic constants with repr", "a NumPy-scalar constant", False, "C06 NumPy-scalar constants; `constant-value` violations are classified by value class, which showed that the recorded complex-literal finding had been hiding this class (and a harness bug on `inf`)"),
+    "C06-m7-cpp-negative-template-unparenthesised": ("cpp negative template `-{0}` (used for xla_client compile-time constants)", "a negated inline compound constant expression in the alt context", False, "C06 constant-only sub-trees (compile-time constant expressions)"),
+    "C06-m8-make-ref-shares-constants-of-same-kind": ("make_ref shares constants of equal value whose types are only of the same kind (float32 vs float64)", "two equal constants with float32 and float64 like-operands (seen by C05 and C08; StableHLO text has no float widths)", True, ""),
+    "C07-m6-normalize-memo-by-literal-value": ("expr.normalize memoises literal conversion per call by value", "two ==-equal literals of different type / sign of zero in one operand list", False, "C07 two literals in one operand list (list, select) for every pair of a literal alphabet"),
+    "C07-m7-register-expression-rejects-nan-hit": ("Context._register_expression rejects a registry hit whose operands compare unequal (NaN)", "the same NaN constant built twice from different NaN objects", True, ""),
+    "C07-m8-type-eq-param-identity": ("Type.__eq__ compares params by identity", "list-typed (tuple parameter) symbols built twice", False, "C07 list-typed symbol specs"),
+    "C08-m6-complex-type-from-real-part-only": ("Expr.get_type(complex) uses the real operand's type only", "complex(float32, float64)", True, ""),
+    "C08-m7-named-constant-with-type-template-uncast": ("PrinterBase skips the cast of named constants whose template contains {type}", "a finfo-family named constant with a complex like", True, ""),
+    "C08-m8-numpy-upcast-float16-to-float64": ("numpy upcast table: float16 -> float64", "upcast of a float16 operand", True, ""),
+    "C09-m6-trace-doc-iterates-kwargs-set": ("Context.trace builds the tracing-parameters doc line from a set of kwargs names", "lax target (prints __doc__), >= 2 tracing kwargs, different hash seeds", False, "C09 re-attaches the docstring to the apmath->lax graphs exactly as tools/generate_apmath_lax.py does"),
+    "C09-m7-log1p-setdefault-into-shared-parameters": ("complex_log1p writes use_fast2sum into the Context parameters with setdefault", "Contexts built from one shared user parameters dict; log1p then log", False, "C09 all ordered pairs of complex numpy/python requests on Contexts that share one user parameters dict"),
+    "C09-m8-definition-dispatcher-caches-registry-lookup": ("the real/complex dispatcher caches the definition it looked up first", "request, then (re-)registration of a user definition, then request", False, "C09 user definitions registered between requests"),
+    "C16-m6-fast-polynomial-d0-branch-squares-power": ("fast_polynomial direct-evaluation branch squares its running power", "a user-supplied scheme that returns 0 for a block of degree >= 3", False, "C16 user-supplied schemes (zero, k//3, k-1, direct below 5) and a per-evaluation time limit"),
+    "C16-m7-derivative-reverse-degree-not-updated": ("polynomial.derivative reverse branch keeps the initial degree", "reverse=True and n >= 2", True, ""),
+    "C16-m8-fpa-horner-skips-zeros-no-final-flush": ("fpa.horner skips zero coefficients and forgets the pending powers at the end", "lowest-order coefficient(s) exactly zero", True, ""),
+    "C18-m6-daz-dropped-when-fz-given": ("`elif DAZ is not None` hanging off the FZ block", "one context given both FZ and DAZ", True, ""),
+    "C18-m7-modify-hoisted-to-creation-time": ("context computes its new value at creation time", "a context created in one register state and entered in another", True, ""),
+    "C18-m8-set-stub-clears-denormal-flag": ("the ldmxcsr stub clears the sticky denormal flag first", "DE flag set on entry; whole-register comparison", False, "C18 compares the whole register (sticky status flags taken over from the hardware after each probe)"),
 }
 
 
